@@ -267,6 +267,50 @@ def fitfraction_functions_by_interpretation(repo, chk):
                     if sp.simplify(sp.sympify(gg[k]) - wg[k]) != 0:
                         bad.append("gradient[%s] = %s, the quotient rule gives %s" % (k, gg[k], wg[k]))
                         break
+        # batched evaluation: the per-event weights are split together with the events, whatever array type carries them
+        import ast as _ast
+        for kind in ("tensor", "ndarray"):
+            wtok = sp.Symbol("W_%s" % kind)
+            seen = []
+
+            def isinst_(tr, a, k, n, _kind=kind, _w=wtok):
+                names_ = {x.id if isinstance(x, _ast.Name) else x.attr for x in _ast.walk(n.args[1]) if isinstance(x, (_ast.Name, _ast.Attribute))} if len(n.args) > 1 else set()
+                v = a[0]
+                if v is _w:
+                    return ("ndarray" in names_ and _kind == "ndarray") or ("Tensor" in names_ and _kind == "tensor")
+                return ("float" in names_ and isinstance(v, float)) or ("list" in names_ and isinstance(v, list))
+
+            def split_(tr, a, k, n):
+                return [("batch", a[0], 0), ("batch", a[0], 1)]
+
+            def integ_(tr, a, k, n, _with=with_grad):
+                b_ = Translator.bound_args(n_fn, a, k) if n_fn is not None else dict(k)
+                seen.append((b_.get("data", a[1] if len(a) > 1 else None), b_.get("weight")))
+                if k.get("grad") is False or not _with:
+                    return sp.Symbol("I_" + tag())
+                return sp.Symbol("I_" + tag()), sp.Symbol("G_" + tag())
+
+            hooks2 = dict(hooks)
+            hooks2["builtin.isinstance"] = isinst_
+            n_fn = None
+            for g in repo.func_by_name.get("sum_gradient", []):
+                if g.mod.rel == FFm:
+                    hooks2[g.key] = integ_
+                    n_fn = g
+            for g in repo.func_by_name.get("data_split", []) + repo.func_by_name.get("split_generator", []):
+                hooks2[g.key] = split_
+            current["sel"] = tuple(names)
+            mc = {"weight": wtok, "tag": "mc"}
+            try:
+                Translator(repo, hooks=hooks2, max_depth=2).call_fn(fn, [amp, mc], {"res": list(names), "batch": sp.Integer(2)})
+            except Unmodelled as e:
+                chk.info("A-frac: %s with batch not interpretable (%s)" % (fname, e))
+                continue
+            unsplit = [w_ for d_, w_ in seen if isinstance(d_, list) and d_ and isinstance(d_[0], tuple) and d_[0][0] == "batch" and not (isinstance(w_, list) and w_ and isinstance(w_[0], tuple) and w_[0][0] == "batch")]
+            okb = bool(seen) and not unsplit
+            chk.instance("A-frac", "%s with batch=2 and %s weights: events and weights are split together in all %d integrations: %s" % (fname, kind, len(seen), okb))
+            if seen and unsplit:
+                bad.append("with a batch size and per-event weights held in a %s the events are split into batches but the weights are handed over whole (%s): batch k is weighted by the k-th entry of the weight vector, so the fractions depend on the batch size" % ("tf.Tensor" if kind == "tensor" else "numpy array", unsplit[0]))
         chk.instance("A-index", "%s visits %d index pairs for n=3 (complete: %s)" % (fname, len(got), set(got) == set(want)))
         chk.instance("A-frac", "%s interpreted for three resonances with probe integrals: %d fractions%s equal the definition: %s" % (fname, len(want), " (and their gradients)" if with_grad else "", not bad))
         if bad:
